@@ -94,7 +94,7 @@ class Witness(dict):
         self.kinds.update(kinds or {})
 
     def __missing__(self, name):
-        base = name.split("[", 1)[0]
+        base = name.split("[", 1)[0].split("@", 1)[0]
         base = base.rstrip("ABCDEFGHIJKLMNOPQRSTUVWXYZ_") if base not in self.kinds else base
         if base in self.kinds:
             v = self.kinds[base]
